@@ -48,8 +48,9 @@ class Contract:
 
 
 class Loop:
-    def __init__(self, anchor, inv, decreases=None, index=None, done=None, modifies=(), note=None, prefix=None):
+    def __init__(self, anchor, inv, decreases=None, index=None, done=None, modifies=(), note=None, prefix=None, body_post=None):
         self.anchor, self.inv, self.decreases = anchor, inv, decreases
+        self.body_post = body_post      # checked at the end of every iteration (trace-based: c.calls_in_iteration)
         self.index, self.done, self.modifies, self.note, self.prefix = index, done, tuple(modifies), note, prefix
 
 
